@@ -26,17 +26,17 @@ def generate(rng, n, tier, stats):
         if k == 'transpose':
             a = arr(); nd = len(a['dims'])
             p = list(range(nd)); rng.shuffle(p)
-            refs = [ref(rng, a['dims'], i) for i in p]
+            refs = [refn(rng, a['dims'], i) for i in p]
             cases.append({'ins': [a], 'ops': [[rng.choice(['transpose', 'transpose_list']), refs]]})
         elif k == 'T':
             a = arr(maxdim=4); cases.append({'ins': [a], 'ops': [['T'] if rng.random() < 0.6 else ['transpose', []]]})
         elif k == 'swapaxes':
             a = arr(ndim=rng.randint(1, 4)); nd = len(a['dims'])
             i, j = rng.randrange(nd), rng.randrange(nd)
-            cases.append({'ins': [a], 'ops': [['swapaxes', ref(rng, a['dims'], i), ref(rng, a['dims'], j)]]})
+            cases.append({'ins': [a], 'ops': [['swapaxes', refn(rng, a['dims'], i), refn(rng, a['dims'], j)]]})
         elif k == 'rollaxis':
             a = arr(ndim=rng.randint(1, 4)); nd = len(a['dims'])
-            cases.append({'ins': [a], 'ops': [['rollaxis', ref(rng, a['dims'], rng.randrange(nd)), rng.randint(0, nd)]]})
+            cases.append({'ins': [a], 'ops': [['rollaxis', refn(rng, a['dims'], rng.randrange(nd)), rng.randint(0, nd)]]})
         elif k == 'newaxis':
             a = arr(maxdim=3); nd = len(a['dims'])
             name = rng.choice([d for d in DIMPOOL if d not in a['dims']])
@@ -117,7 +117,13 @@ def generate(rng, n, tier, stats):
 
 # ---------------------------------------------------------------- oracle (from the property text)
 def _pos(dims, r):
-    return dims.index(r) if isinstance(r, str) else r
+    if isinstance(r, str): return dims.index(r)
+    return r if r >= 0 else r + len(dims)       # negative positions count from the end, as in NumPy
+
+def refn(rng, dims, i):
+    """dimension i by name, by position, or by NEGATIVE position"""
+    u = rng.random()
+    return dims[i] if u < 0.4 else i if u < 0.75 else i - len(dims)
 
 def expected_dims(dims, lens, ops, ins):
     """dims after the ops, as the property states them; None = the property does not say
